@@ -38,13 +38,16 @@ Record world := mkworld {
 
 Definition w_set_bank (W : world) (b : gmap N Z) : world :=
   mkworld b (supply W) (wexists W) (deleg W) (unbond W) (wdaddr W) (pending W) (broken W) (grants W) (store W).
+(** bank SendCoins: the recipient's auth account is created when it does not exist *)
 Definition move (W : world) (from to : N) (v : Z) : world :=
-  w_set_bank W (<[to := zg (bank W) to + v]> (<[from := zg (bank W) from - v]> (bank W))).
+  mkworld (<[to := zg (bank W) to + v]> (<[from := zg (bank W) from - v]> (bank W))) (supply W) (wexists W ∪ {[to]})
+          (deleg W) (unbond W) (wdaddr W) (pending W) (broken W) (grants W) (store W).
 Definition withdraw_addr (W : world) (a : N) : N := default a (wdaddr W !! a).
 
 (** * StateDB *)
-Record obj := mkobj { obal : Z; dstor : gmap Z Z; ostor : gmap Z Z; tstor : gmap Z Z }.
-Inductive jentry := JBal (a : N) (prev : Z) | JStor (a : N) (k prev : Z) | JCreate (a : N) | JLog.
+Record obj := mkobj { obal : Z; dstor : gmap Z Z; ostor : gmap Z Z; tstor : gmap Z Z; osui : bool (* self-destructed *) }.
+Inductive jentry := JBal (a : N) (prev : Z) | JStor (a : N) (k prev : Z) | JCreate (a : N) | JLog
+                  | JSuicide (a : N) (prev : bool) (prevbal : Z).
 Record sdb := mksdb {
   objs : gmap N obj;
   journal : list jentry;            (* newest first *)
@@ -54,7 +57,7 @@ Record sdb := mksdb {
 Definition sdb0 : sdb := mksdb ∅ [] ∅ 0.
 
 Definition dirtied (e : jentry) : option N :=
-  match e with JBal a _ => Some a | JStor a _ _ => Some a | JCreate a => Some a | JLog => None end.
+  match e with JBal a _ => Some a | JStor a _ _ => Some a | JCreate a => Some a | JLog => None | JSuicide a _ _ => Some a end.
 
 Definition japp (D : sdb) (e : jentry) : sdb :=
   mksdb (objs D) (e :: journal D)
@@ -66,20 +69,26 @@ Definition set_obj (D : sdb) (a : N) (o : obj) : sdb := mksdb (<[a := o]> (objs 
 Definition load (W : world) (D : sdb) (a : N) : sdb :=
   match objs D !! a with
   | Some _ => D
-  | None => if bool_decide (a ∈ wexists W) then set_obj D a (mkobj (zg (bank W) a) ∅ ∅ ∅) else D
+  | None => if bool_decide (a ∈ wexists W) then set_obj D a (mkobj (zg (bank W) a) ∅ ∅ ∅ false) else D
   end.
 (** getOrNewStateObject *)
 Definition get_or_new (W : world) (D : sdb) (a : N) : sdb :=
   let D1 := load W D a in
   match objs D1 !! a with
   | Some _ => D1
-  | None => japp (set_obj D1 a (mkobj 0 ∅ ∅ ∅)) (JCreate a)
+  | None => japp (set_obj D1 a (mkobj 0 ∅ ∅ ∅ false)) (JCreate a)
   end.
 Definition cbal (D : sdb) (a : N) : Z := match objs D !! a with Some o => obal o | None => 0 end.
 
 Definition set_bal (D : sdb) (a : N) (v : Z) : sdb :=
   match objs D !! a with
-  | Some o => set_obj (japp D (JBal a (obal o))) a (mkobj v (dstor o) (ostor o) (tstor o))
+  | Some o => set_obj (japp D (JBal a (obal o))) a (mkobj v (dstor o) (ostor o) (tstor o) (osui o))
+  | None => D
+  end.
+(** Suicide: the flag is set and the cached balance zeroed; the journal keeps both *)
+Definition suicide (D : sdb) (a : N) : sdb :=
+  match objs D !! a with
+  | Some o => set_obj (japp D (JSuicide a (osui o) (obal o))) a (mkobj 0 (dstor o) (ostor o) (tstor o) true)
   | None => D
   end.
 Definition add_bal (W : world) (D : sdb) (a : N) (amt : Z) : sdb :=
@@ -97,11 +106,11 @@ Definition set_state (W : world) (D : sdb) (a : N) (k v : Z) : sdb :=
         | Some d => (d, o)
         | None => match ostor o !! k with
                   | Some c => (c, o)
-                  | None => let c := zg (store W) (a, k) in (c, mkobj (obal o) (dstor o) (<[k := c]> (ostor o)) (tstor o))
+                  | None => let c := zg (store W) (a, k) in (c, mkobj (obal o) (dstor o) (<[k := c]> (ostor o)) (tstor o) (osui o))
                   end
         end in
       if prev =? v then set_obj D1 a o1
-      else set_obj (japp D1 (JStor a k prev)) a (mkobj (obal o1) (<[k := v]> (dstor o1)) (ostor o1) (tstor o1))
+      else set_obj (japp D1 (JStor a k prev)) a (mkobj (obal o1) (<[k := v]> (dstor o1)) (ostor o1) (tstor o1) (osui o1))
   end.
 
 Definition add_log (D : sdb) : sdb := let D1 := japp D JLog in mksdb (objs D1) (journal D1) (dirties D1) (Datatypes.S (logs D1)).
@@ -111,11 +120,13 @@ Definition undo (D : sdb) (e : jentry) : sdb :=
   let D1 :=
     match e with
     | JBal a prev => match objs D !! a with
-                     | Some o => set_obj D a (mkobj prev (dstor o) (ostor o) (tstor o)) | None => D end
+                     | Some o => set_obj D a (mkobj prev (dstor o) (ostor o) (tstor o) (osui o)) | None => D end
     | JStor a k prev => match objs D !! a with
-                        | Some o => set_obj D a (mkobj (obal o) (<[k := prev]> (dstor o)) (ostor o) (tstor o)) | None => D end
+                        | Some o => set_obj D a (mkobj (obal o) (<[k := prev]> (dstor o)) (ostor o) (tstor o) (osui o)) | None => D end
     | JCreate a => mksdb (delete a (objs D)) (journal D) (dirties D) (logs D)
     | JLog => mksdb (objs D) (journal D) (dirties D) (Nat.pred (logs D))
+    | JSuicide a p pb => match objs D !! a with
+                         | Some o => set_obj D a (mkobj pb (dstor o) (ostor o) (tstor o) p) | None => D end
     end in
   match dirtied e with
   | Some a => let c := Nat.pred (default O (dirties D1 !! a)) in
@@ -143,13 +154,22 @@ Definition commit_storage (W : world) (a : N) (o : obj) : world * obj :=
       if skip then (W, o)
       else (mkworld (bank W) (supply W) (wexists W) (deleg W) (unbond W) (wdaddr W) (pending W) (broken W) (grants W)
                     (<[(a, k) := v]> (store W)),
-            mkobj (obal o) (dstor o) (ostor o) (<[k := v]> (tstor o))))
+            mkobj (obal o) (dstor o) (ostor o) (<[k := v]> (tstor o)) (osui o)))
     (map_to_list (dstor o)) (W, o).
+
+(** keeper.DeleteAccount of a self-destructed contract: nothing when the auth account is gone
+    already; else SetBalance 0 (the bank balance is burned), the storage is cleared, the account removed *)
+Definition delete_account (W : world) (a : N) : world :=
+  if bool_decide (a ∈ wexists W) then
+    mkworld (<[a := 0]> (bank W)) (supply W - zg (bank W) a) (wexists W ∖ {[a]}) (deleg W) (unbond W) (wdaddr W)
+            (pending W) (broken W) (grants W) (base.filter (fun kv : N * Z * Z => fst (fst kv) <> a) (store W))
+  else W.
 
 Definition commit_one (W : world) (D : sdb) (a : N) : world * sdb * bool :=
   match objs D !! a with
   | None => (W, D, true)
   | Some o =>
+      if osui o then (delete_account W a, D, true) else
       let W0 := mkworld (bank W) (supply W) (wexists W ∪ {[a]}) (deleg W) (unbond W) (wdaddr W) (pending W) (broken W)
                         (grants W) (store W) in
       let delta := obal o - zg (bank W0) a in
@@ -318,7 +338,7 @@ Definition do_call (order : list N) (s : st) (caller target : N) (value : Z)
   let D1 := load W D0 target in
   let D2 := match objs D1 !! target with
             | Some _ => D1
-            | None => japp (set_obj D1 target (mkobj 0 ∅ ∅ ∅)) (JCreate target)   (* CreateAccount *)
+            | None => japp (set_obj D1 target (mkobj 0 ∅ ∅ ∅ false)) (JCreate target)   (* CreateAccount *)
             end in
   let D3 := add_bal W (sub_bal W D2 caller value) target value in
   let '((W4, D4), oc) := run (W, D3) in
@@ -334,6 +354,7 @@ Definition run_pre (order : list N) (o c : N) (p : pcall) (s : st) : st * outcom
 
 Inductive instr :=
 | ISStore (k v : Z) | ILog | IRevert | IBalance (a : N)
+| ISelfdestruct (b : N)     (* SELFDESTRUCT to beneficiary b; halts the frame: the encoder puts it last in a body *)
 | ICall (t : N) (value : Z) (catch : bool) (rec : option Z) (body : list instr)
 | IPre (p : pcall) (value : Z) (catch : bool) (rec : option Z).
 
@@ -349,6 +370,13 @@ Fixpoint exec_instr (order : list N) (o self : N) (i : instr) (s : st) {struct i
   | ILog => let '(W, D) := s in ((W, add_log D), Ok)
   | IRevert => (s, Fail)
   | IBalance a => let '(W, D) := s in ((W, load W D a), Ok)
+  | ISelfdestruct b =>
+      let '(W, D) := s in
+      let D0 := load W D self in
+      match objs D0 !! self with
+      | None => ((W, D0), Ok)                    (* cannot happen: the executing contract is loaded *)
+      | Some o => ((W, suicide (add_bal W D0 b (obal o)) self), Ok)   (* AddBalance(beneficiary, balance); Suicide(self) *)
+      end
   | ICall t value catch rec body =>
       let run := (fix exec_list (l : list instr) (s : st) : st * outcome :=
                     match l with
@@ -389,7 +417,8 @@ Record ecase := mkecase {
 }.
 Record eobs := mkeobs {
   b_ok : bool; b_bal : list Z; b_supply : Z; b_deleg : list Z; b_unbond : list Z; b_wd : list Z;
-  b_storage : list (N * Z * Z)
+  b_storage : list (N * Z * Z);
+  b_alive : list bool                 (* auth account of the contracts 2..4 still exists *)
 }.
 Global Instance eobs_eq_dec : EqDecision eobs.
 Proof. solve_decision. Defined.
@@ -414,14 +443,29 @@ Definition observe (c : ecase) (W : world) (ok : bool) : eobs :=
   mkeobs ok (map (fun a => zg (bank W) a) (nseq 14)) (supply W)
          (map (fun a => zg (deleg W) a) (nseq 5)) (map (fun a => zg (unbond W) a) (nseq 5))
          (map (fun a => Z.of_N (withdraw_addr W a)) (nseq 5))
-         (flat_map (fun '(a, k) => let v := zg (store W) (a, k) in if v =? 0 then [] else [(a, k, v)]) (e_slots c)).
+         (flat_map (fun '(a, k) => let v := zg (store W) (a, k) in if v =? 0 then [] else [(a, k, v)]) (e_slots c))
+         (map (fun a => bool_decide (a ∈ wexists W)) [2%N; 3%N; 4%N]).
+
+(** well-formed programs: SELFDESTRUCT halts its frame, so nothing follows it in a body *)
+Fixpoint sd_ok (i : instr) : bool :=
+  match i with
+  | ICall _ _ _ _ body =>
+      (fix go (l : list instr) : bool :=
+         match l with
+         | [] => true
+         | x :: r => sd_ok x && match x, r with ISelfdestruct _, _ :: _ => false | _, _ => true end && go r
+         end) body
+  | _ => true
+  end.
+Definition sd_ok_top (t : top) : bool :=
+  match t with TopCall c body => sd_ok (ICall c 0 false None body) | TopPre _ => true end.
 
 (** the harness passes the module accounts' balances before the tx as part of the
     observed pre-state; they are inputs of the model *)
 Definition check_case (x : ecase * list Z * eobs) : bool :=
   let '(c, mods, ob) := x in
   let '(W, ok) := run_tx (e_order c) (world_of c mods) (e_value c) (e_top c) in
-  bool_decide (observe c W ok = ob).
+  sd_ok_top (e_top c) && bool_decide (observe c W ok = ob).
 
 Fixpoint mismatches_from (i : nat) (cs : list (ecase * list Z * eobs)) : list nat :=
   match cs with
